@@ -12,9 +12,17 @@
 //     conversions (1 mm, as stated), (c) a FRESH converter anchored at the model's anchor
 //     ("re-anchoring fully replaces the old frame": nothing of the history may survive).
 // Conversions that assert(isAnchored_) are issued only when the model is anchored.
+//
+// Very long histories on one object (state whose width is 2^8 or 2^16 operations): two case
+// indices in every 8191 carry, inside an ordinary history, a run of 66000..70000 setAnchor calls
+// (alternating between 2-3 anchors, isAnchored() compared with the model after every call, frame
+// and one conversion checked every 4096 calls and around the 2^8-th / 2^16-th anchoring since the
+// converter was last un-anchored) resp. a run of 66000..70000 fully checked conversions, each
+// followed by one pass over every per-operation oracle.
 #include <Eigen/Core>
 #include <Eigen/Geometry>
 #include <memory>
+#include <valgrind/valgrind.h>
 #include "romea_core_common/geodesy/ENUConverter.hpp"
 #include "vh.hpp"
 #include "vh_hooks.hpp"
@@ -165,11 +173,13 @@ static Eigen::Vector3d draw_local(vh::Rng & r)
 enum Op
 {
   OP_CTOR_DEFAULT, OP_CTOR_ANCHOR, OP_COPY, OP_SET_ANCHOR, OP_SET_ANCHOR_ALIAS, OP_RESET, OP_ENU_GEO, OP_ENU_WGS,
-  OP_ENU_ECEF, OP_ECEF, OP_WGS84, OP_IS_ANCHORED, OP_TRANSFORM, OP_PAIR, OP_ABOVE, OP_ORIGIN, OP_N
+  OP_ENU_ECEF, OP_ECEF, OP_WGS84, OP_IS_ANCHORED, OP_TRANSFORM, OP_PAIR, OP_ABOVE, OP_ORIGIN,
+  OP_LONG_SET_RUN, OP_LONG_CONV_RUN, OP_RUN_ANCHOR, OP_N
 };
 static const char * OP_NAME[] = {"ENUConverter()", "ENUConverter(anchor)", "copy", "setAnchor", "setAnchor(getAnchor())", "reset",
   "toENU(geodetic)", "toENU(wgs84)", "toENU(ecef)", "toECEF", "toWGS84", "isAnchored", "getEnuToEcefTransform",
-  "pair_distance", "above_anchor", "anchor_to_origin"};
+  "pair_distance", "above_anchor", "anchor_to_origin",
+  "setAnchor_run[calls_done,calls_total,anchors]", "conversion_run[calls_done,calls_total,-]", "run_anchor"};
 
 struct OpRec {int code; double a[3]; bool anchored_after;};
 
@@ -190,8 +200,13 @@ struct Runner
   double dist_prev_anchor = -1;     // metres between the current and the previous anchor (-1: none)
   Eigen::Vector3d cur_p = Eigen::Vector3d::Zero();
   bool dead = false;                // stop the history after a state divergence (would assert)
+  // long histories: operations on this object since it was last un-anchored / constructed
+  uint64_t idx = 0, n_ops = 0, sets_since_unanchored = 0, conv_on_object = 0;
+  bool long_mode = false;           // inside a long run only the latest operation is kept in the trace
+  size_t long_marker = 0;
+  uint64_t long_done = 0;
 
-  Runner(vh::Ctx & c_, vh::Rng & r_) : c(c_), r(r_) {}
+  Runner(vh::Ctx & c_, vh::Rng & r_, uint64_t idx_) : c(c_), r(r_), idx(idx_) {}
 
   vh::Params params() const
   {
@@ -199,7 +214,8 @@ struct Runner
       {"op", (double)cur_op}, {"op_index", (double)op_index}, {"n_resets", (double)n_resets},
       {"n_anchorings", (double)n_anchorings}, {"dist_prev_anchor", dist_prev_anchor},
       {"e", cur_p[0]}, {"n", cur_p[1]}, {"u", cur_p[2]},
-      {"dist_antimeridian", M_PI - std::fabs(anc.lon)}};
+      {"dist_antimeridian", M_PI - std::fabs(anc.lon)},
+      {"sets_since_unanchored", (double)sets_since_unanchored}, {"conversions_on_object", (double)conv_on_object}};
   }
   std::string witness() const
   {
@@ -225,6 +241,9 @@ struct Runner
   void rec(int code, double a0 = 0, double a1 = 0, double a2 = 0)
   {
     cur_op = code;
+    ++n_ops;
+    if (long_mode) {trace.resize(long_marker + 1); trace[long_marker].a[0] = (double)long_done;}
+    if ((code >= OP_ENU_GEO && code <= OP_WGS84) || (code >= OP_PAIR && code <= OP_ORIGIN)) {++conv_on_object;}
     trace.push_back({code, {a0, a1, a2}, false});
     hash = vh::hash_addi(hash, (uint64_t)code);
     hash = vh::hash_add(vh::hash_add(vh::hash_add(hash, a0), a1), a2);
@@ -240,7 +259,7 @@ struct Runner
       if (anchored) {++n_reanchor; c.cat("reanchor_without_reset");}
       if (dist_prev_anchor < 1.0 && dist_prev_anchor > 0) {c.cat("reanchor_within_1m");}
     }
-    anchored = true; anc = a; fr = make_frame(a.lat, a.lon, a.alt); ++n_anchorings;
+    anchored = true; anc = a; fr = make_frame(a.lat, a.lon, a.alt); ++n_anchorings; ++sets_since_unanchored;
     pool.push_back(a);
     if (std::fabs(a.lon) == M_PI) {c.cat("anchor_lon_exact_pi");}
     if (M_PI - std::fabs(a.lon) < 1e-3) {c.cat("anchor_antimeridian_near");}
@@ -352,7 +371,7 @@ struct Runner
   {
     rec(OP_CTOR_DEFAULT);
     conv = std::make_unique<ENUConverter>();
-    anchored = false;
+    anchored = false; sets_since_unanchored = 0; conv_on_object = 0;
   }
   void op_ctor_anchor()
   {
@@ -360,6 +379,7 @@ struct Runner
     rec(OP_CTOR_ANCHOR, a.lat, a.lon, a.alt);
     conv = std::make_unique<ENUConverter>(romea::core::makeGeodeticCoordinates(a.lat, a.lon, a.alt));
     anchored = false;                 // a new object: not a re-anchoring of the old one
+    sets_since_unanchored = 0; conv_on_object = 0;
     model_anchor(a);
     check_frame();
   }
@@ -388,7 +408,7 @@ struct Runner
   {
     rec(OP_RESET);
     conv->reset();
-    anchored = false; ++n_resets;
+    anchored = false; ++n_resets; sets_since_unanchored = 0;
   }
 
   void op_enu_geodetic()
@@ -614,6 +634,77 @@ struct Runner
     ++op_index;
   }
 
+  // ---- very long runs on one object -----------------------------------------------------------
+  void all_oracles_once()
+  {
+    static const int C[] = {OP_ENU_GEO, OP_ENU_WGS, OP_ENU_ECEF, OP_ECEF, OP_WGS84, OP_PAIR, OP_ABOVE, OP_ORIGIN, OP_TRANSFORM};
+    for (int op : C) {if (!dead && anchored) {step(op);}}
+  }
+  static int long_length(vh::Rng & r)
+  {
+    // valgrind (memcheck flavour) is ~50x slower and its verdicts are not used: only the 2^8 boundary there
+    return RUNNING_ON_VALGRIND ? (int)r.range(300, 600) : (int)r.range(66000, 70000);
+  }
+
+  void long_setanchor_run()
+  {
+    const int total = long_length(r), k = (int)r.range(2, 3);
+    Anchor K[3]; Frame Fk[3]; GeodeticCoordinates G[3];
+    for (int j = 0; j < k; ++j) {
+      K[j] = next_anchor(); pool.push_back(K[j]);
+      Fk[j] = make_frame(K[j].lat, K[j].lon, K[j].alt);
+      G[j] = romea::core::makeGeodeticCoordinates(K[j].lat, K[j].lon, K[j].alt);
+      rec(OP_RUN_ANCHOR, K[j].lat, K[j].lon, K[j].alt);       // puts the run's anchors into the trace and the hash
+      trace.back().anchored_after = anchored;
+    }
+    rec(OP_LONG_SET_RUN, 0, total, k);
+    long_marker = trace.size() - 1; long_mode = true;
+    for (int i = 0; i < total && !dead; ++i) {
+      const int j = i % k;
+      cur_op = OP_SET_ANCHOR;
+      conv->setAnchor(G[j]);
+      if (anchored) {++n_reanchor;}
+      anchored = true; anc = K[j]; fr = Fk[j]; ++n_anchorings; ++sets_since_unanchored; ++n_ops;
+      long_done = (uint64_t)i + 1;
+      trace.resize(long_marker + 1); trace[long_marker].a[0] = (double)long_done;
+      const bool got = conv->isAnchored();
+      trace[long_marker].anchored_after = got;
+      if (!c.expect("state.is_anchored", got, "state_flag", P(), W())) {dead = true; break;}
+      const uint64_t s = sets_since_unanchored;
+      if ((i + 1) % 4096 == 0 || (s >= 255 && s <= 257) || (s >= 65535 && s <= 65537)) {
+        check_frame();
+        step(OP_ENU_ECEF);
+      }
+    }
+    long_mode = false;
+    c.count(std::string("op_") + OP_NAME[OP_SET_ANCHOR], long_done);
+    c.count("long_run_setAnchor_calls", long_done);
+    c.maxi("longest_setAnchor_run_without_reset", (double)sets_since_unanchored);
+    if (!dead) {check_frame();}
+    all_oracles_once();
+  }
+
+  void long_conversion_run()
+  {
+    if (!anchored) {step(OP_SET_ANCHOR);}
+    const int total = long_length(r);
+    static const int C[] = {OP_ENU_GEO, OP_ENU_WGS, OP_ENU_ECEF, OP_ENU_ECEF, OP_ECEF, OP_ECEF, OP_WGS84, OP_PAIR, OP_ABOVE, OP_ORIGIN};
+    rec(OP_LONG_CONV_RUN, 0, total, 0);
+    long_marker = trace.size() - 1; long_mode = true;
+    for (int i = 0; i < total && !dead; ++i) {
+      long_done = (uint64_t)i;
+      step(C[r.range(0, sizeof C / sizeof C[0] - 1)]);
+      long_done = (uint64_t)i + 1;
+    }
+    long_mode = false;
+    trace[long_marker].a[0] = (double)long_done;
+    trace[long_marker].anchored_after = conv->isAnchored();
+    c.count("long_run_conversion_calls", long_done);
+    c.maxi("most_conversions_on_one_object", (double)conv_on_object);
+    if (!dead && anchored) {check_frame();}
+    all_oracles_once();
+  }
+
   int pick_op()
   {
     if (!anchored) {
@@ -658,9 +749,18 @@ struct Runner
       default:
         script.push_back(r.coin() ? OP_CTOR_ANCHOR : OP_CTOR_DEFAULT);
     }
+    // two indices in every 8191 (a prime, so they spread over the shards) carry a very long run
+    const int long_kind = idx % 8191 == 17 ? 1 : (idx % 8191 == 4113 ? 2 : 0);
+    const int long_at = long_kind ? (int)r.range(1, 5) : -1;
+    if (long_kind == 1) {cat = "history_long_setanchor_run";}
+    if (long_kind == 2) {cat = "history_long_conversion_run";}
     c.cat(cat);
     size_t si = 0;
     for (int i = 0; i < len && !dead; ++i) {
+      if (i == long_at) {
+        if (long_kind == 1) {long_setanchor_run();} else {long_conversion_run();}
+        if (dead) {break;}
+      }
       int op = si < script.size() ? script[si++] : pick_op();
       // scripted conversions need an anchored model; fall back to a legal op otherwise
       bool needs_anchor = op == OP_ENU_ECEF || op == OP_ECEF || op == OP_WGS84 || op == OP_PAIR || op == OP_ABOVE ||
@@ -672,9 +772,9 @@ struct Runner
     bool nontrivial = (n_resets + n_reanchor) >= 1 && n_conv >= 3;
     if (n_resets > 0) {c.cat("has_reset");}
     if (n_reanchor > 0) {c.cat("has_reanchor");}
-    c.maxi("history_length", (double)trace.size());
+    c.maxi("history_length", (double)n_ops);
     c.maxi("anchorings_in_one_history", (double)n_anchorings);
-    c.count("operations", trace.size());
+    c.count("operations", n_ops);
     c.count("conversions", (uint64_t)n_conv);
     c.distinct(hash, nontrivial);
     c.sample(cat, [&]() {return witness();});
@@ -684,7 +784,7 @@ struct Runner
 static void one_case(vh::Ctx & c, uint64_t idx)
 {
   vh::Rng r(c.seed, idx);
-  Runner run(c, r);
+  Runner run(c, r, idx);
   run.run();
 }
 
